@@ -140,3 +140,10 @@ inline StageRes stage_states(Ctx& c, Recorder& rec, SymMode mode, const std::vec
 }
 inline const char* mode_name(SymMode m) { return m == SYM_DEFAULT ? "default" : m == SYM_IGNORE ? "ignored" : "custom"; }
 } // namespace mx
+namespace mx {
+inline refed::Mat Mat_of(const Operator& O, int M) {
+    int D = 1 << M; refed::Mat m = refed::Mat::Zero(D, D);
+    for (unsigned long k = 0; k < (unsigned long)D; ++k) { std::map<FockState, MelemType> r = O.actRight(FockState(M, k)); for (auto it = r.begin(); it != r.end(); ++it) m(it->first.to_ulong(), k) += cd(it->second); }
+    return m;
+}
+}
